@@ -30,7 +30,11 @@ def modelFormat (impl : Fields) (pfx : String) : Fields × Option ParseResult :=
     let h := match impl.get (pfx ++ "h") with
       | some _ => [(pfx ++ "h", "1")]
       | none => []
-    (m.fields ++ second ++ h, some r)
+    -- the REPL / command line path formats with a fresh print state: always the printer's text
+    let rp := match impl.get (pfx ++ "r") with
+      | some _ => [(pfx ++ "r", "1")]
+      | none => []
+    (m.fields ++ second ++ rp ++ h, some r)
 
 /-! ### C02 -/
 
@@ -103,7 +107,7 @@ def runCase (prop : Prop') (inp obs : String) : CaseResult :=
       (a && b && c && d && a' && b' && c' && d', !a || !a' || !c || !c' , !b || !b')
   let (sm, mn, mc) := stmt model
   let (si, inn, ic) := stmt impl
-  let history := !(impl.is "F.h" "0") && !(impl.is "L.h" "0")
+  let history := !(impl.is "F.h" "0") && !(impl.is "L.h" "0") && !(impl.is "F.r" "0")
   let si := si && history
   let _ := inp
   let prog := match fr, lr with
